@@ -30,6 +30,8 @@ type halfPipe struct {
 	cond   *sync.Cond
 	buf    []byte
 	closed bool
+	// maxRead > 0: a Read hands over at most that many bytes (a transport that delivers the stream in small segments)
+	maxRead int
 }
 
 func newHalfPipe() *halfPipe { h := &halfPipe{}; h.cond = sync.NewCond(&h.mu); return h }
@@ -53,6 +55,9 @@ func (h *halfPipe) Read(p []byte) (int, error) {
 	}
 	if len(h.buf) == 0 {
 		return 0, io.EOF
+	}
+	if h.maxRead > 0 && len(p) > h.maxRead {
+		p = p[:h.maxRead]
 	}
 	n := copy(p, h.buf)
 	h.buf = h.buf[n:]
@@ -244,12 +249,16 @@ func TestVerifC06(t *testing.T) {
 		// ---- honest run --------------------------------------------------------------------------------
 		{
 			x, y := newDuplex()
+			// the stream reaches the parties whole, or in segments of 1 / 3 / 7 bytes (a frame is then never available in
+			// one piece)
+			seg := []int{0, 1, 3, 7}[round%4]
+			x.in.maxRead, y.in.maxRead = seg, seg
 			rq, rs := c06RunRequester(x, A, B.GetPublic()), c06RunResponder(y, B)
 			r1, ok1 := c06Wait(rq)
 			r2, ok2 := c06Wait(rs)
-			rep.Case(fmt.Sprintf("honest/%d", round))
+			rep.Case(fmt.Sprintf("honest/%d/segments-of-%d", round, seg))
 			if !ok1 || !ok2 || r1.err != nil || r2.err != nil || r2.key == nil || !r2.key.Equals(A.GetPublic()) {
-				rep.Violate("C06/honest-handshake-fails", fmt.Sprintf("honest parties: requester err=%v responder err=%v", r1.err, r2.err), round)
+				rep.Violate("C06/honest-handshake-fails", fmt.Sprintf("honest parties (stream delivered in segments of %d bytes, 0 = whole): requester err=%v responder err=%v", seg, r1.err, r2.err), round)
 			} else {
 				rep.Count("honest_ok", 1)
 			}
